@@ -81,6 +81,9 @@ def run(ctx):
                 if o["op"] not in ("spoil", "reset", "wait"):
                     op = op.copy(duration=d) if hasattr(op, "copy") and o["op"] in ("scalar", "matrix") else op
                 ops.append(op)
+            # timing-only members, negative ones included (Offset(-t) rewinds the clock; a group's total may be negative)
+            for _ in range(ctx.rng.choice([0, 0, 1, 2])):
+                ops.insert(ctx.rng.randrange(len(ops) + 1), epg.Offset(float(ctx.rng.choice([-2, -1, -0.5, 1]))))
             struct = nest(ctx.rng, ops)
             nested = build_nested(struct) + [epg.ADC]
             flat = ops + [epg.ADC]
@@ -276,15 +279,16 @@ def partial_oracle(ctx, n):
             o["darrs"] = {p_: l for p_, l in o["darrs"].items() if p_ in act}
             o["d2arrs"] = {pq: l for pq, l in o["d2arrs"].items() if o["order2"] and pq[0] in act and pq[1] in act}
         aliased = any(isinstance(o["order1_arg"], dict) for o in (o1, o2))
-        auto2 = any(o["order2_arg"] is True or isinstance(o["order2_arg"], str) for o in (o1, o2))
+        auto2 = any(o["order2_arg"] is True or isinstance(o["order2_arg"], str) or
+                    (isinstance(o["order2_arg"], list) and all(isinstance(x, str) for x in o["order2_arg"])) for o in (o1, o2))
         def o2class(o):
             if not o["order1"]:
                 return "plain"
             if not o["order2"]:
                 return "order1"
             arg = o["order2_arg"]
-            if arg is True or isinstance(arg, str):
-                return "auto"
+            if arg is True or isinstance(arg, str) or (isinstance(arg, list) and all(isinstance(x, str) for x in arg)):
+                return "auto"           # True / a name / a list of names: automatic cross derivatives
             if isinstance(arg, dict) and any(arg.values()):
                 return "coefs"          # explicit second-order coefficients
             return "pairs"              # explicit pairs, default coefficients
